@@ -5,6 +5,7 @@ package strategy
 // Contracts read by the verification engine in /verif (govc). Comment-only file.
 //
 //@ import v1 "github.com/DataDog/extendeddaemonset/api/v1alpha1"
+//@ import corev1 "k8s.io/api/core/v1"
 //@ import intstr "k8s.io/apimachinery/pkg/util/intstr"
 //@ import podutils "github.com/DataDog/extendeddaemonset/pkg/controller/utils/pod"
 //@ import eds "github.com/DataDog/extendeddaemonset/controllers/extendeddaemonset"
@@ -37,22 +38,44 @@ package strategy
 //@   requires forall i int :: 0 <= i && i < len(pods) ==> pods[i] != nil
 //@   modifies nothing
 //@   loop 1 invariant true
-//@ func cleanupPods
+//@ func deletePodSlice
 //@   trusted
 //@   logs
-//@   ensures only-deletes: forall k int :: lognew(k) ==> logverb(k) == "Delete"
+//@   modifies nothing
+//@   ensures only-deletes-listed-pods: forall q int :: lognew(q) ==> logverb(q) == "Delete"
+//@             && exists i int :: 0 <= i && i < len(podsToDelete) && logobj(q) == podsToDelete[i] && podsToDelete[i].ObjectMeta.DeletionTimestamp == nil
+//@   ensures none-when-empty: len(podsToDelete) == 0 ==> loglen() == old(loglen())
+//@ func cleanupPods
+//@   logs
 //@   requires status != nil
 //@   modifies status.Conditions, elems(status.Conditions)
+//@   ensures only-deletes: forall q int :: lognew(q) ==> logverb(q) == "Delete"
+//@   ensures [C04,C12] deletes-only-the-given-pods: forall q int :: lognew(q) ==> exists i int :: 0 <= i && i < len(pods) && logobj(q) == pods[i]
+//@   ensures none-when-empty: len(pods) == 0 ==> loglen() == old(loglen())
+//@   ensures backing: status.Conditions == old(status.Conditions) || root(status.Conditions) == old(root(status.Conditions)) || freshroot(status.Conditions)
 //@ func deletePodLabel
-//@   trusted
 //@   logs
-//@   ensures only-patches: forall k int :: lognew(k) ==> logverb(k) == "Patch" && logobj(k) != nil
+//@   requires c != nil
 //@   modifies nothing
+//@   ensures only-patches: forall q int :: lognew(q) ==> logverb(q) == "Patch" && logobj(q) != nil
+//@   ensures at-most-one-call: loglen() <= old(loglen()) + 1
+//@   ensures [C04,C12] patches-the-given-pod: forall q int :: lognew(q) ==> pod != nil
+//@             && cast(logsent(q), "*corev1.Pod").ObjectMeta.Name == pod.ObjectMeta.Name && cast(logsent(q), "*corev1.Pod").ObjectMeta.Namespace == pod.ObjectMeta.Namespace
+//@   ensures [C04,C12] removes-only-that-label: forall q int :: lognew(q) ==> !(k in cast(logsent(q), "*corev1.Pod").ObjectMeta.Labels)
+//@             && forall a string :: a != k ==> ((a in cast(logsent(q), "*corev1.Pod").ObjectMeta.Labels) <==> (a in pod.ObjectMeta.Labels))
+//@                 && cast(logsent(q), "*corev1.Pod").ObjectMeta.Labels[a] == pod.ObjectMeta.Labels[a]
 //@ func addPodLabel
-//@   trusted
 //@   logs
-//@   ensures only-patches: forall k int :: lognew(k) ==> logverb(k) == "Patch" && logobj(k) != nil
+//@   requires c != nil
 //@   modifies nothing
+//@   ensures only-patches: forall q int :: lognew(q) ==> logverb(q) == "Patch" && logobj(q) != nil
+//@   ensures at-most-one-call: loglen() <= old(loglen()) + 1
+//@   ensures [C04,C12] patches-the-given-pod: forall q int :: lognew(q) ==> pod != nil
+//@             && cast(logsent(q), "*corev1.Pod").ObjectMeta.Name == pod.ObjectMeta.Name && cast(logsent(q), "*corev1.Pod").ObjectMeta.Namespace == pod.ObjectMeta.Namespace
+//@   ensures [C04,C12] sets-only-that-label: forall q int :: lognew(q) ==> (k in cast(logsent(q), "*corev1.Pod").ObjectMeta.Labels)
+//@             && cast(logsent(q), "*corev1.Pod").ObjectMeta.Labels[k] == v
+//@             && forall a string :: a != k ==> ((a in cast(logsent(q), "*corev1.Pod").ObjectMeta.Labels) <==> (a in pod.ObjectMeta.Labels))
+//@                 && cast(logsent(q), "*corev1.Pod").ObjectMeta.Labels[a] == pod.ObjectMeta.Labels[a]
 //@
 //@ func ManageDeployment
 //@   logs
@@ -63,6 +86,8 @@ package strategy
 //@   requires forall i int :: 0 <= i && i < len(params.UnscheduledPods) ==> params.UnscheduledPods[i] != nil
 //@   modifies params.NewStatus.Conditions, elems(params.NewStatus.Conditions), mapof(params.PodByNodeName)
 //@   ensures result != nil && fresh(result)
+//@   ensures prepared-status-backing: params.NewStatus.Conditions == old(params.NewStatus.Conditions)
+//@             || root(params.NewStatus.Conditions) == old(root(params.NewStatus.Conditions)) || freshroot(params.NewStatus.Conditions)
 //@   ensures [C11,C12] canary-label-list-is-restricted-to-the-namespace: forall k int :: lognew(k) && logverb(k) == "List" ==>
 //@             lognamespaced(k) && logns(k) == params.Replicaset.ObjectMeta.Namespace
 //@   ensures [C08] paused-flag: result.IsPaused <==> eds.IsRollingUpdatePaused(daemonset.ObjectMeta.Annotations)
@@ -93,6 +118,13 @@ package strategy
 //@   ensures [C14] counters-ordered: result.NewStatus != nil ==> 0 <= result.NewStatus.Available && result.NewStatus.Available <= result.NewStatus.Ready
 //@             && result.NewStatus.Ready <= result.NewStatus.Current && result.NewStatus.Current <= result.NewStatus.Desired
 //@   ensures [C14] desired-is-node-count: result.NewStatus != nil ==> result.NewStatus.Desired == len(params.PodByNodeName)
+//@   ensures [C16] a-missing-status-means-an-error: result.NewStatus == nil ==> result1 != nil
+//@   ensures status-is-fresh: result.NewStatus != nil ==> fresh(result.NewStatus) && (result.NewStatus.Conditions == nil || freshroot(result.NewStatus.Conditions))
+//@   ensures [C09,C11] only-lists-label-patches-and-cleanup-deletes: forall q int :: lognew(q) ==> logverb(q) == "List" || logverb(q) == "Patch" || logverb(q) == "Delete"
+//@   ensures [C04,C12] deletes-only-pods-to-clean-up: forall q int :: lognew(q) && logverb(q) == "Delete" ==>
+//@             exists i int :: 0 <= i && i < len(params.PodToCleanUp) && logobj(q) == params.PodToCleanUp[i]
+//@   ensures [C04] patches-only-remove-the-canary-label: forall q int :: lognew(q) && logverb(q) == "Patch" ==>
+//@             !(v1.ExtendedDaemonSetReplicaSetCanaryLabelKey in cast(logsent(q), "*corev1.Pod").ObjectMeta.Labels)
 //@   loop 1 invariant forall k int :: 0 <= k && k < iter() ==> !(params.NodeByName[params.CanaryNodes[k]] in params.PodByNodeName)
 //@   loop 1 modifies mapof(params.PodByNodeName)
 //@   loop 2 invariant desiredPods == iter() && 0 <= availablePods && availablePods <= readyPods && readyPods <= createdPods
@@ -122,6 +154,11 @@ package strategy
 //@             ==> exists j int :: 0 <= j && j < len(allPodToDelete) && allPodToDelete[j] == n
 //@   loop 3 invariant forall k int :: old(loglen()) <= k && k < loglen() && logverb(k) == "List" ==>
 //@             lognamespaced(k) && logns(k) == params.Replicaset.ObjectMeta.Namespace
+//@   loop 3 invariant forall q int :: old(loglen()) <= q && q < loglen() ==> logverb(q) == "List" || logverb(q) == "Patch" || logverb(q) == "Delete"
+//@   loop 3 invariant forall q int :: old(loglen()) <= q && q < loglen() && logverb(q) == "Delete" ==>
+//@             exists i int :: 0 <= i && i < len(params.PodToCleanUp) && logobj(q) == params.PodToCleanUp[i]
+//@   loop 3 invariant forall q int :: old(loglen()) <= q && q < loglen() && logverb(q) == "Patch" ==>
+//@             !(v1.ExtendedDaemonSetReplicaSetCanaryLabelKey in cast(logsent(q), "*corev1.Pod").ObjectMeta.Labels)
 //@
 //@ func ManageUnknown
 //@   requires params != nil && params.NewStatus != nil
@@ -129,6 +166,7 @@ package strategy
 //@   ensures result != nil && fresh(result) && result1 == nil
 //@   ensures [C04] leftover-replica-set-takes-no-action: len(result.PodsToCreate) == 0 && len(result.PodsToDelete) == 0
 //@   ensures [C14] reports-zero-desired: result.NewStatus != nil && result.NewStatus.Desired == 0
+//@   ensures status-is-fresh: fresh(result.NewStatus) && (result.NewStatus.Conditions == nil || freshroot(result.NewStatus.Conditions))
 //@   ensures [C14] counters-ordered: 0 <= result.NewStatus.Available && result.NewStatus.Available <= result.NewStatus.Ready
 //@             && result.NewStatus.Ready <= result.NewStatus.Current
 //@   loop 1 invariant true
@@ -155,6 +193,7 @@ package strategy
 //@             && rc.LastUpdateTime.Time - rc.LastTransitionTime.Time > canary.AutoFail.MaxRestartsDuration.Duration)
 //@   let timedOut = old(sc != nil && canary.AutoFail.CanaryTimeout != nil
 //@             && now - sc.LastTransitionTime.Time > canary.AutoFail.CanaryTimeout.Duration)
+//@   ensures backing: result.NewStatus.Conditions == old(result.NewStatus.Conditions) || root(result.NewStatus.Conditions) == old(root(result.NewStatus.Conditions)) || freshroot(result.NewStatus.Conditions)
 //@   ensures [C06] failed-is-sticky: old(result.IsFailed) ==> result.IsFailed
 //@   ensures [C06] disabled-autofail-never-fires: !autoFail ==> (result.IsFailed <==> old(result.IsFailed))
 //@   ensures [C06] fails-only-on-a-documented-trigger: result.IsFailed && !old(result.IsFailed) ==> autoFail && len(pods) >= 1
@@ -185,6 +224,8 @@ package strategy
 //@   requires forall n *NodeItem :: (n in params.PodByNodeName) && params.PodByNodeName[n] != nil ==> params.PodByNodeName[n].Status.StartTime != nil
 //@   modifies nothing
 //@   ensures result != nil && fresh(result) && result.NewStatus != nil
+//@   ensures status-is-fresh: fresh(result.NewStatus)
+//@   ensures conditions-are-fresh: result.NewStatus.Conditions == nil || freshroot(result.NewStatus.Conditions)
 //@   ensures [C04] creates-only-on-canary-nodes: forall i int :: 0 <= i && i < len(result.PodsToCreate) ==>
 //@             exists k int :: 0 <= k && k < len(params.CanaryNodes) && result.PodsToCreate[i] == params.NodeByName[params.CanaryNodes[k]]
 //@   ensures [C01,C04] creates-only-where-no-pod-exists: forall i int :: 0 <= i && i < len(result.PodsToCreate) ==>
@@ -202,6 +243,57 @@ package strategy
 //@   loop 1 invariant forall j int :: 0 <= j && j < len(podsToCreate) ==> (podsToCreate[j] in params.PodByNodeName) && params.PodByNodeName[podsToCreate[j]] == nil
 //@             && exists k int :: 0 <= k && k < iter() && podsToCreate[j] == params.NodeByName[params.CanaryNodes[k]]
 //@   loop 1 invariant forall j int :: 0 <= j && j < len(podsToCheckForRestarts) ==> podsToCheckForRestarts[j] != nil && podsToCheckForRestarts[j].Status.StartTime != nil
+//@
+//@ func ensureCanaryPodLabels
+//@   logs
+//@   requires client != nil && params != nil && params.Replicaset != nil
+//@   modifies nothing
+//@   ensures only-patches: forall q int :: lognew(q) ==> logverb(q) == "Patch" && logobj(q) != nil
+//@   ensures [C04,C12] labels-only-own-pods-on-canary-nodes: forall q int :: lognew(q) ==> exists k int :: 0 <= k && k < len(params.CanaryNodes)
+//@             && (params.NodeByName[params.CanaryNodes[k]] in params.PodByNodeName) && params.PodByNodeName[params.NodeByName[params.CanaryNodes[k]]] != nil
+//@             && params.PodByNodeName[params.NodeByName[params.CanaryNodes[k]]].ObjectMeta.Labels[v1.ExtendedDaemonSetReplicaSetNameLabelKey] == params.Replicaset.ObjectMeta.Name
+//@             && cast(logsent(q), "*corev1.Pod").ObjectMeta.Name == params.PodByNodeName[params.NodeByName[params.CanaryNodes[k]]].ObjectMeta.Name
+//@             && cast(logsent(q), "*corev1.Pod").ObjectMeta.Namespace == params.PodByNodeName[params.NodeByName[params.CanaryNodes[k]]].ObjectMeta.Namespace
+//@   ensures [C04] sets-the-canary-label: forall q int :: lognew(q) ==>
+//@             cast(logsent(q), "*corev1.Pod").ObjectMeta.Labels[v1.ExtendedDaemonSetReplicaSetCanaryLabelKey] == "true"
+//@   loop 1 invariant forall q int :: old(loglen()) <= q && q < loglen() ==> logverb(q) == "Patch" && logobj(q) != nil
+//@             && cast(logsent(q), "*corev1.Pod").ObjectMeta.Labels[v1.ExtendedDaemonSetReplicaSetCanaryLabelKey] == "true"
+//@             && exists k int :: 0 <= k && k < iter()
+//@             && (params.NodeByName[params.CanaryNodes[k]] in params.PodByNodeName) && params.PodByNodeName[params.NodeByName[params.CanaryNodes[k]]] != nil
+//@             && params.PodByNodeName[params.NodeByName[params.CanaryNodes[k]]].ObjectMeta.Labels[v1.ExtendedDaemonSetReplicaSetNameLabelKey] == params.Replicaset.ObjectMeta.Name
+//@             && cast(logsent(q), "*corev1.Pod").ObjectMeta.Name == params.PodByNodeName[params.NodeByName[params.CanaryNodes[k]]].ObjectMeta.Name
+//@             && cast(logsent(q), "*corev1.Pod").ObjectMeta.Namespace == params.PodByNodeName[params.NodeByName[params.CanaryNodes[k]]].ObjectMeta.Namespace
+//@
+//@ func ManageCanaryDeployment
+//@   logs
+//@   requires client != nil && daemonset != nil
+//@   requires params != nil && params.NewStatus != nil && params.Replicaset != nil && params.Strategy != nil && params.Strategy.Canary != nil
+//@   let canary = params.Strategy.Canary
+//@   requires canary.AutoPause != nil && canary.AutoPause.Enabled != nil && canary.AutoPause.MaxRestarts != nil
+//@   requires canary.AutoFail != nil && canary.AutoFail.Enabled != nil && canary.AutoFail.MaxRestarts != nil
+//@   requires forall n *NodeItem :: (n in params.PodByNodeName) && params.PodByNodeName[n] != nil ==> params.PodByNodeName[n].Status.StartTime != nil
+//@   requires forall i int :: 0 <= i && i < len(params.UnscheduledPods) ==> params.UnscheduledPods[i] != nil
+//@   modifies nothing
+//@   ensures result != nil && fresh(result) && result.NewStatus != nil && fresh(result.NewStatus) && result1 == nil
+//@             && (result.NewStatus.Conditions == nil || freshroot(result.NewStatus.Conditions))
+//@   ensures [C04] creates-only-on-canary-nodes: forall i int :: 0 <= i && i < len(result.PodsToCreate) ==>
+//@             exists k int :: 0 <= k && k < len(params.CanaryNodes) && result.PodsToCreate[i] == params.NodeByName[params.CanaryNodes[k]]
+//@   ensures [C01,C04] creates-only-where-no-pod-exists: forall i int :: 0 <= i && i < len(result.PodsToCreate) ==>
+//@             (result.PodsToCreate[i] in params.PodByNodeName) && params.PodByNodeName[result.PodsToCreate[i]] == nil
+//@   ensures [C06,C08] no-creation-while-paused-or-failed: result.IsPaused || result.IsFailed ==> len(result.PodsToCreate) == 0
+//@   ensures [C14] counters-ordered: 0 <= result.NewStatus.Available && result.NewStatus.Available <= result.NewStatus.Ready
+//@             && result.NewStatus.Ready <= result.NewStatus.Current && result.NewStatus.Current <= result.NewStatus.Desired
+//@   ensures [C14] desired-is-canary-node-count: result.NewStatus.Desired == len(params.CanaryNodes)
+//@   ensures [C11] only-label-patches-and-cleanup-deletes: forall q int :: lognew(q) ==> logverb(q) == "Patch" || logverb(q) == "Delete"
+//@   ensures [C04,C12] deletes-only-pods-to-clean-up: forall q int :: lognew(q) && logverb(q) == "Delete" ==>
+//@             exists i int :: 0 <= i && i < len(params.PodToCleanUp) && logobj(q) == params.PodToCleanUp[i]
+//@   ensures [C04,C12] labels-only-own-pods-on-canary-nodes: forall q int :: lognew(q) && logverb(q) == "Patch" ==> exists k int :: 0 <= k && k < len(params.CanaryNodes)
+//@             && (params.NodeByName[params.CanaryNodes[k]] in params.PodByNodeName) && params.PodByNodeName[params.NodeByName[params.CanaryNodes[k]]] != nil
+//@             && params.PodByNodeName[params.NodeByName[params.CanaryNodes[k]]].ObjectMeta.Labels[v1.ExtendedDaemonSetReplicaSetNameLabelKey] == params.Replicaset.ObjectMeta.Name
+//@             && cast(logsent(q), "*corev1.Pod").ObjectMeta.Name == params.PodByNodeName[params.NodeByName[params.CanaryNodes[k]]].ObjectMeta.Name
+//@             && cast(logsent(q), "*corev1.Pod").ObjectMeta.Namespace == params.PodByNodeName[params.NodeByName[params.CanaryNodes[k]]].ObjectMeta.Namespace
+//@   ensures [C04] patches-set-the-canary-label: forall q int :: lognew(q) && logverb(q) == "Patch" ==>
+//@             cast(logsent(q), "*corev1.Pod").ObjectMeta.Labels[v1.ExtendedDaemonSetReplicaSetCanaryLabelKey] == "true"
 //@
 //@ func NewNodeItem
 //@   transparent
